@@ -23,7 +23,7 @@ PROPS = {
     'C09': {'units': ['prep'], 'kani': []},
     'C08': {'units': ['mmcs'], 'kani': []},
     'C16': {'units': ['meta'], 'kani': []},
-    'C11': {'units': ['air', 'run19'], 'kani': [], 'only': {'run19': r'execute_alu_op'}},
+    'C11': {'units': ['air', 'alu', 'run19'], 'kani': [], 'only': {'run19': r'execute_alu_op'}},
 }
 
 TB_COMMON = ['p3 field types satisfy the field laws the lemmas name; machine field arithmetic treated as mathematical',
@@ -114,9 +114,14 @@ META['C11'] = {
     'technique': 'Verus contracts on extracted real constraint helpers over the free commutative ring (integers) + runner ALU semantics',
     'text': 'Deductive proof, for every extension degree D and every operand values, that the extension multiplications the ALU constraints are built from compute multiplication in '
             'F[X]/(X^D - w) (ext_mul_binomial: loop invariant over the D*D partial sums) and in F[X]/(X^5 + X^2 - 1) (ext_mul_quintic_trinomial: existence of the quotient polynomial), '
-            'and that the runner side of each ALU kind (execute_alu_op) leaves exactly the defining relation in the witness table in forward and backward mode.',
-    'note': 'KERNEL ONLY: the selector-gated body of AluAir::eval (which polynomial is asserted zero under which selector), packed/inter-row Horner constraints, Const/Public/Recompose AIRs and the '
-            'Poseidon AIRs are NOT under contract. Ring elements are integers: identities over Z transfer to every commutative ring (trusted). Type erasure of AB::Var/AB::Expr to one ring type.',
+            'that the runner side of each ALU kind (execute_alu_op) leaves exactly the defining relation in the witness table in forward and backward mode, '
+            'and that AluAir::eval asserts exactly the selector-gated runner relations (the runner\'s Horner step acc*b + c - a is the kernel of every packed form).',
+    'note': 'The body of AluAir::eval IS under contract (unit alu): for one two-row window, the conjunction of all asserted polynomials equals the conjunction of the selector-gated runner relations '
+            '(Add, Mul via the residual selector, BoolCheck, MulAdd, one Horner step to the next row; packed Horner: b^2 column, first two steps folded into the next row, pair legs through the stored '
+            'intermediates, odd tail step, single-step fallback), both directions, for every D, lane count and packing K; no index in the row windows can go out of bounds. NOT under contract: '
+            'eval_alu_interactions (bus sends), the 4-line ext_mul_lane closure (stub returning the ring product), trace generation, Const/Public/Recompose and Poseidon AIRs. '
+            'Ring elements are integers with an uninterpreted product in unit alu (every obligation there is an equality of terms); identities over Z transfer to every commutative ring (trusted). '
+            'Column views generated from the real struct definitions (repr(C) field order).',
 }
 
 META['C16'] = {
